@@ -133,9 +133,25 @@ def check_model(ck, m, label, custom_table, stats):
                   "opaque impl %s passes parameters %s to the vtable call (expected each of its %d parameters once, in order)" % (of["path"], oparams, ob.argc - 1))
 
 
+def _field_of(v, me):
+    """Name of the field of `*me` / `me` that value v designates (directly, by reference, or through Deref::deref of it)."""
+    from lib import sem
+    v = sem.strip(v)
+    if v[0] == "opq" and v[2][0] == "call" and v[2][1] in ("std::ops::Deref::deref", "std::ops::DerefMut::deref_mut") and v[2][2]:
+        v = sem.strip(v[2][2][0])
+    if v[0] == "ref" and v[1] == ("ext", me) and len(v[2]) == 1 and v[2][0][0] == "f":
+        return v[2][0][2]
+    if v[0] == "fld" and v[1] == me:
+        return v[3]
+    return None
+
+
 def check_accessors(ck, f, unit, label):
     """R4: cobj_*/ccont_*/build_with_ccont/get_vtbl(_base) implementations project fields of `self`."""
+    from lib import sem
     n = 0
+    allf = {x["path"]: x for x in f.fns(unit)}
+    ev = sem.Evaluator(allf, {a["path"]: a for a in f.adts(unit)}, inline=lambda p: True)
     for fn in f.fns(unit):
         it = fn.get("impl_trait") or ""
         nm = fn["name"]
@@ -146,6 +162,17 @@ def check_accessors(ck, f, unit, label):
         ret = body.origin_local(0)
         if it in (TG + "CGlueObjRef", TG + "CGlueObjMut", TG + "CGlueObjBase") and nm in ("cobj_ref", "cobj_mut", "cobj_base_ref", "cobj_base_owned"):
             n += 1
+            # semantic form first: the returned tuple is (instance [through Deref], [ret_tmp,] context) of `self` itself, whatever helper
+            # or destructuring the body goes through
+            me = ("sym", "self")
+            outs = ev.run(fn, [me])
+            if len(outs) == 1 and outs[0].kind == "ret":
+                r = sem.strip(outs[0].ret)
+                names = [_field_of(x, me) for x in r[4]] if r[0] == "agg" and r[1] == "tuple" else []
+                ok = len(names) in (2, 3) and names[0] == "instance" and names[-1] == "context" and (len(names) == 2 or (names[1] or "").startswith("ret_tmp"))
+                ck.ob("R4-cobj-projects-self", key, ok, "%s does not return (instance, [ret_tmp,] context) of its own `self`: %s" % (fn["path"], sem.fmt(outs[0].ret)[:200]),
+                      sample={"fn": fn["path"]})
+                continue
             ok = ret[0] == "agg" and ret[1] == "tuple"
             if ok:
                 comps = [forward.leafify(x) for x in ret[4]]
